@@ -7,6 +7,7 @@ import (
 	"time"
 
 	"go.minekube.com/gate/pkg/internal/future"
+	"go.minekube.com/gate/pkg/internal/verifhook"
 
 	"go.minekube.com/brigodier"
 	"go.minekube.com/common/minecraft/color"
@@ -56,6 +57,7 @@ func (c *chatHandler) queueCommandResult(
 	c.player.chatQueue.QueuePacket(func(lastSeenMessages *chat.LastSeenMessages) *future.Future[proto.Packet] {
 		f := future.New[proto.Packet]()
 		go func() {
+			verifhook.Point("chat.create", "cmd", cmd)
 			pkt := packetCreator(e, lastSeenMessages)
 			// TODO log command execution
 			f.Complete(pkt)
